@@ -105,6 +105,9 @@ func (m *ModelServer) ListPublications(_ context.Context, request *traits.ListPu
 	}
 
 	lastKey := pageToken.GetLastResourceName() // the key() of the last item we sent
+	if err := validatePageSize(request.GetPageSize()); err != nil {
+		return nil, err
+	}
 	pageSize := capPageSize(int(request.GetPageSize()))
 
 	sortedItems := m.model.ListPublications(resource.WithReadMask(request.ReadMask))
